@@ -113,7 +113,8 @@ func (tree *trie) Get(key []byte) (value uint32, ok bool) {
 		}
 	}
 
-	if tree.labelVec.GetLabel(pos) == labelTerminator && !tree.hasChildVec.IsSet(pos) {
+	// a terminator is never the only label of its node; a lone 0xFF is a real label
+	if tree.labelVec.GetLabel(pos) == labelTerminator && !tree.hasChildVec.IsSet(pos) && !tree.isEndOfNode(pos) {
 		if ok = tree.suffixVec.CheckSuffix(key, depth, pos); ok {
 			valPos := tree.valuePos(pos)
 			value = tree.values.Get(valPos)
